@@ -102,7 +102,7 @@ func (t *Tracer) IO(owner any, kind string, off int64, data []byte) (int, error)
 		}
 	}
 	fail := t.FailAt == idx
-	e := Ev{"ev": "IO", "kind": kind, "idx": idx, "off": off, "len": len(data), "fail": fail}
+	e := Ev{"ev": "IO", "kind": kind, "idx": idx, "off": off, "len": len(data), "fail": fail, "short": 0}
 	if fail {
 		t.FailHit = true
 		ent.Failed = true
